@@ -561,3 +561,81 @@ func (fr *frame) loadConstTable(g *ssa.Global, elems []*ssa.Const, st *State) *V
 	u.abstract("constant-table-read")
 	return &Val{t: u.define("table", "Slice", fmt.Sprintf("(mk-slice %s 0 %d %d)", arr, len(elems), len(elems)))}
 }
+
+// constScalar: an UNEXPORTED package-level variable of string / integer / boolean type that is initialised once, in the
+// package initialiser, from a constant, is never assigned again and whose address is never taken, is that constant:
+// `var formText = "..."` reads like `const formText = "..."`. Exported variables are settings (MaxClockSkew) and stay
+// variables.
+func (e *Engine) constScalar(g *ssa.Global) (*ssa.Const, bool) {
+	if e.scalarSeen == nil {
+		e.scalarSeen, e.scalars = map[*ssa.Global]bool{}, map[*ssa.Global]*ssa.Const{}
+	}
+	if e.scalarSeen[g] {
+		c := e.scalars[g]
+		return c, c != nil
+	}
+	e.scalarSeen[g] = true
+	if g.Object() == nil || g.Object().Exported() || g.Pkg == nil || !strings.HasPrefix(g.Pkg.Pkg.Path(), modPath) {
+		return nil, false
+	}
+	b, ok := g.Type().Underlying().(*types.Pointer).Elem().Underlying().(*types.Basic)
+	if !ok || b.Info()&(types.IsString|types.IsInteger|types.IsBoolean) == 0 {
+		return nil, false
+	}
+	var val *ssa.Const
+	stores := 0
+	var check func(fn *ssa.Function) bool
+	check = func(fn *ssa.Function) bool {
+		isInit := fn.Synthetic == "package initializer" || fn.Name() == "init"
+		for _, blk := range fn.Blocks {
+			for _, in := range blk.Instrs {
+				uses := false
+				for _, op := range in.Operands(nil) {
+					if op != nil && *op == ssa.Value(g) {
+						uses = true
+					}
+				}
+				if !uses {
+					continue
+				}
+				switch x := in.(type) {
+				case *ssa.UnOp:
+					if x.Op != token.MUL {
+						return false
+					}
+				case *ssa.Store:
+					c, isC := x.Val.(*ssa.Const)
+					if !isInit || x.Addr != ssa.Value(g) || !isC {
+						return false
+					}
+					stores++
+					val = c
+				case *ssa.DebugRef:
+				default:
+					return false
+				}
+			}
+		}
+		for _, a := range fn.AnonFuncs {
+			if !check(a) {
+				return false
+			}
+		}
+		return true
+	}
+	for _, fn := range e.funcs {
+		if !check(fn) {
+			return nil, false
+		}
+	}
+	if init := g.Pkg.Func("init"); init != nil {
+		if _, listed := e.funcs[funcName(init)]; !listed && !check(init) {
+			return nil, false
+		}
+	}
+	if stores != 1 || val == nil {
+		return nil, false
+	}
+	e.scalars[g] = val
+	return val, true
+}
